@@ -17,7 +17,8 @@ inductive WFrame where
   | priority (dep weight : Nat)
   | rstStream (code : Nat)
   | settings (ack : Bool) (tableSize : Nat) (push : Bool) (maxStreams windowSize frameSize headerSize : Nat)
-  | pushPromise (header : Bytes)
+  /-- `promised`: `pp.stream` as `SetStream` got it (any uint32; `Serialize` clears the reserved bit) -/
+  | pushPromise (promised : Nat) (endHeaders : Bool) (header : Bytes)
   | ping (ack : Bool) (d : Bytes)
   | goAway (last code : Nat) (debug : Bytes)
   | windowUpdate (inc : Nat)
@@ -56,7 +57,10 @@ def serialize (fl : Nat) (pad : Nat) : WFrame → Nat × Bytes
     else (fl, settingsEncode { tableSize := ts, enablePush := push, maxStreams := ms, windowSize := ws,
                                frameSize := fs, headerSize := hs, hasTableSize := true, hasPush := true,
                                hasMaxStreams := true, hasWindowSize := true })
-  | .pushPromise h => (fl, h)
+  | .pushPromise pr eh h =>
+    let fl := addFlag fl Gen.c_FlagEndHeaders eh
+    let p := toBe32 (pr % 2 ^ 31) ++ h
+    if pad ≠ 0 then (addFlag fl Gen.c_FlagPadded true, addPadding p pad) else (fl, p)
   | .ping ack d => (addFlag fl Gen.c_FlagAck ack, d)
   | .goAway last code dbg => (fl, toBe32 last ++ toBe32 code ++ dbg)
   | .windowUpdate inc => (fl, toBe32 inc)
@@ -76,7 +80,7 @@ def WFrame.want : WFrame → Body
   | .settings ack ts push ms ws fs hs =>
     .settings { ack := ack, tableSize := ts, enablePush := push, maxStreams := ms, windowSize := ws,
                 frameSize := fs, headerSize := hs }
-  | .pushPromise h => .pushPromise 0 false h
+  | .pushPromise pr eh h => .pushPromise (pr % 2 ^ 31) eh h
   | .ping ack d => .ping ack d
   | .goAway last code dbg => .goAway last code dbg
   | .windowUpdate inc => .windowUpdate inc
